@@ -9,6 +9,7 @@ import CnfgenModel.Core.Iter
 import CnfgenModel.Vars.Groups
 namespace Cnfgen
 namespace Fam
+namespace G2
 open Vars
 
 /-- `itertools.combinations(l, 2)` as pairs, in Python's order -/
@@ -61,5 +62,6 @@ def binNondecreasing (st bits k N : Nat) : List Con :=
   (pairs2 (verts k)).flatMap (fun u => (pairs2 (List.range N)).map (fun v =>
     .clause (forbidC st bits u.1 v.2 ++ forbidC st bits u.2 v.1)))
 
+end G2
 end Fam
 end Cnfgen
